@@ -83,6 +83,7 @@ ExtraVals ==
     [t |-> "lang", v |-> "s1", lang |-> "en"],
     [t |-> "lit", v |-> "s1", dt |-> QN("ex", A, <<"dtype">>)],
     [t |-> "nlit", T |-> "string", v |-> "s1"], [t |-> "nlit", T |-> "double", v |-> "h"],
+    [t |-> "nlit", T |-> "double", v |-> "1"],     \* integral double: lexical form "1", "1.0" or "1.0...e+00"
     [t |-> "nlit", T |-> "long", v |-> "7"], [t |-> "nlit", T |-> "int", v |-> "1"],
     [t |-> "nlit", T |-> "boolean", v |-> "1"], [t |-> "nlit", T |-> "dateTime", v |-> "t1"],
     [t |-> "nlit", T |-> "anyURI", u |-> A \o X], [t |-> "plit", v |-> "s1"] }
@@ -154,5 +155,6 @@ PropC05_refuse     == [][LET o == Obs IN o.op.op \in {"AddAttrs", "SetTime"} => 
 PropC05_idem       == [][LET o == Obs IN o.op.op \in {"AddAttrs", "SetTime"} => Holds(C05_idem(o), o)]_vars
 PropC05_accumulate == [][LET o == Obs IN o.op.op = "AddAttrs" => Holds(C05_accumulate(o), o)]_vars
 PropC05_new        == [][LET o == Obs IN o.op.op = "NewRec" => Holds(C05_new(o), o)]_vars
+PropC05_exact      == [][LET o == Obs IN o.op.op \in {"NewRec", "AddAttrs"} => Holds(C05_exact(o), o)]_vars
 IndexOK == \A h \in DOMAIN ms.con : ms.con[h].kind # "loose" => IndexCoherent(ms.con[h])
 =============================================================================
